@@ -33,6 +33,7 @@ type Coverage struct {
 }
 
 type Evidence struct {
+	debug           bool
 	PropertyID      string   `json:"property_id"`
 	Tier            string   `json:"tier"`
 	Seed            int64    `json:"seed"`
@@ -154,9 +155,14 @@ func (ev *Evidence) write(verifDir string, wall time.Duration, results []*harnes
 	if ev.Coverage.Transitions == 0 {
 		ev.Coverage.Transitions = 1
 	}
-	os.MkdirAll(filepath.Join(verifDir, "evidence"), 0o755)
+	dir := filepath.Join(verifDir, "evidence")
+	if ev.debug {
+		// partial runs (--harness / --cases) never replace the evidence of the registered command
+		dir = filepath.Join(dir, "_debug")
+	}
+	os.MkdirAll(dir, 0o755)
 	b, _ := json.MarshalIndent(ev, "", " ")
-	os.WriteFile(filepath.Join(verifDir, "evidence", ev.PropertyID+".json"), b, 0o644)
+	os.WriteFile(filepath.Join(dir, ev.PropertyID+".json"), b, 0o644)
 }
 
 // ---- known findings ---------------------------------------------------------
